@@ -197,8 +197,47 @@ class _Stmts:
         self.adjacent = None
         self.sentinels = set()
 
+    def unroll_search(self, st):
+        """``for a in (c1, c2, c3): if P(a): S(a); break`` [``else: E``] over a literal tuple of constants is the ladder
+        ``if P(c1): S(c1) elif P(c2): S(c2) elif P(c3): S(c3) else: E``; ``getattr(x, "name")`` with the constant filled
+        in is written ``x.name``"""
+        it = st.iter
+        if isinstance(it, ast.Name):
+            it = self.consts.get(it.id)
+        if not (isinstance(st.target, ast.Name) and isinstance(it, (ast.Tuple, ast.List)) and 1 <= len(it.elts) <= 4 and all(isinstance(e, ast.Constant) for e in it.elts)):
+            return None
+        if not (len(st.body) == 1 and isinstance(st.body[0], ast.If) and not st.body[0].orelse and st.body[0].body and isinstance(st.body[0].body[-1], ast.Break)):
+            return None
+        inner = st.body[0]
+        name = st.target.id
+        rest = inner.body[:-1]
+        for sub in ast.walk(ast.Module(body=rest + [ast.Expr(value=inner.test)], type_ignores=[])):
+            if isinstance(sub, (ast.Break, ast.Continue, ast.FunctionDef, ast.AsyncFunctionDef, ast.Lambda, ast.ClassDef)):
+                return None
+            if isinstance(sub, ast.Name) and sub.id == name and isinstance(sub.ctx, (ast.Store, ast.Del)):
+                return None
+        # the loop variable must not be read after the loop
+        class _Attr(ast.NodeTransformer):
+            def visit_Call(self, node):
+                self.generic_visit(node)
+                if isinstance(node.func, ast.Name) and node.func.id == "getattr" and len(node.args) == 2 and not node.keywords and isinstance(node.args[1], ast.Constant) and isinstance(node.args[1].value, str) and node.args[1].value.isidentifier():
+                    return ast.copy_location(ast.Attribute(value=node.args[0], attr=node.args[1].value, ctx=ast.Load()), node)
+                return node
+
+        chain = list(st.orelse)
+        for e in reversed(it.elts):
+            test = _Attr().visit(_Subst(name, e).visit(copy.deepcopy(inner.test)))
+            body = [_Attr().visit(_Subst(name, e).visit(copy.deepcopy(s_))) for s_ in rest] or [ast.Pass()]
+            chain = [ast.copy_location(ast.If(test=test, body=body, orelse=chain), st)]
+        for c_ in chain:
+            ast.fix_missing_locations(c_)
+        self.count += 1
+        return chain
+
     def unroll(self, st):
         """the copies of the body of a table-driven loop, or None"""
+        if isinstance(st.target, ast.Name):
+            return self.unroll_search(st)
         if st.orelse or not isinstance(st.target, ast.Tuple) or not all(isinstance(t, ast.Name) for t in st.target.elts):
             return None
         it = st.iter
